@@ -1,7 +1,7 @@
 package local
 
 import (
-	"bytes"
+	"io"
 
 	"github.com/buildbarn/bb-storage/pkg/blobstore/buffer"
 	"github.com/buildbarn/bb-storage/pkg/digest"
@@ -46,13 +46,34 @@ func (ib *inMemoryBlock) HasSpace(sizeBytes int64) bool {
 	return int64(len(ib.data)-ib.writeOffsetBytes) >= sizeBytes
 }
 
+// inMemoryBlockWriter is an io.Writer that stores data in the space
+// that was allocated for an object. It intentionally does not
+// implement io.ReaderFrom. bytes.Buffer does, and its ReadFrom()
+// method (which io.Copy() prefers over Write()) reallocates the buffer
+// as soon as less than bytes.MinRead bytes of capacity remain, which
+// would cause data to end up outside of the block.
+type inMemoryBlockWriter struct {
+	data []byte
+}
+
+func (w *inMemoryBlockWriter) Write(p []byte) (int, error) {
+	n := copy(w.data, p)
+	w.data = w.data[n:]
+	if n < len(p) {
+		return n, io.ErrShortWrite
+	}
+	return n, nil
+}
+
 func (ib *inMemoryBlock) Put(sizeBytes int64) BlockPutWriter {
 	// Allocate space.
 	offsetBytes := ib.writeOffsetBytes
 	ib.writeOffsetBytes += int(sizeBytes)
 	return func(b buffer.Buffer) BlockPutFinalizer {
 		// Ingest data.
-		err := b.IntoWriter(bytes.NewBuffer(ib.data[offsetBytes:offsetBytes]))
+		err := b.IntoWriter(&inMemoryBlockWriter{
+			data: ib.data[offsetBytes : offsetBytes+int(sizeBytes)],
+		})
 		return func() (int64, error) {
 			return int64(offsetBytes), err
 		}
